@@ -16,14 +16,15 @@ import (
 )
 
 type mutant struct {
-	Name     string
-	File     string
-	Funcs    []string
-	Expect   []string
-	Tags     string
-	Old      string
-	New      string
-	Harmless bool
+	Name       string
+	File       string
+	Funcs      []string
+	Expect     []string
+	Tags       string
+	Old        string
+	New        string
+	Harmless   bool
+	Occurrence int
 }
 
 func parseMutant(path string) (*mutant, error) {
@@ -51,6 +52,8 @@ func parseMutant(path string) (*mutant, error) {
 			m.Tags = strings.TrimSpace(l[5:])
 		case l == "harmless":
 			m.Harmless = true
+		case strings.HasPrefix(l, "occurrence:"):
+			fmt.Sscanf(strings.TrimSpace(l[11:]), "%d", &m.Occurrence)
 		}
 	}
 	m.Old = strings.TrimSuffix(s[io+8:in], "\n")
@@ -85,13 +88,26 @@ func cmdSelftest(args []string) {
 			bad++
 			continue
 		}
-		if strings.Count(string(src), m.Old) != 1 {
-			fmt.Printf("STALE   %-40s old text occurs %d times in %s\n", m.Name, strings.Count(string(src), m.Old), m.File)
+		cnt := strings.Count(string(src), m.Old)
+		if (m.Occurrence == 0 && cnt != 1) || (m.Occurrence > 0 && cnt < m.Occurrence) {
+			fmt.Printf("STALE   %-40s old text occurs %d times in %s\n", m.Name, cnt, m.File)
 			bad++
 			continue
 		}
+		mutated := strings.Replace(string(src), m.Old, m.New, 1)
+		if m.Occurrence > 1 {
+			idx := 0
+			for k := 0; k < m.Occurrence; k++ {
+				j := strings.Index(string(src)[idx:], m.Old)
+				idx += j
+				if k < m.Occurrence-1 {
+					idx += len(m.Old)
+				}
+			}
+			mutated = string(src)[:idx] + m.New + string(src)[idx+len(m.Old):]
+		}
 		e := NewEngine(*repo, m.Tags)
-		e.overlay = map[string][]byte{filepath.Join(*repo, m.File): []byte(strings.Replace(string(src), m.Old, m.New, 1))}
+		e.overlay = map[string][]byte{filepath.Join(*repo, m.File): []byte(mutated)}
 		if err := e.Load(contractDirs(*repo)); err != nil {
 			fmt.Printf("ERROR   %-40s does not load: %v\n", m.Name, err)
 			bad++
